@@ -606,6 +606,7 @@ func init() {
 				cfg.PLiteral = 8
 				cfg.MaxTypeDepth = 3
 				cfg.MaxStructs = 4
+				cfg.PTopMap = 35 // mapped top-level calls: per-fork records and outs/<index|key>/ directories
 				seed := c.Seed*1000003 + 1300000 + int64(i)
 				big := i%5 == 4
 				outside := i%2 == 1
